@@ -96,6 +96,37 @@ func ruleListSize(c *Ctx, r *R) {
 			}
 		}
 		// methods that must not touch size must also not call ones that do, except Move→remove (which does not)
+		if !good && !token.IsExported(n) {
+			// an unexported helper that moves size (added(node): `l.size++; return node`): its effect is counted, through the
+			// call, on every path of each method that calls it - decided there, provided only List's methods call it
+			sites := callCommonsOf(c, fn)
+			viaCallers := len(sites) > 0
+			callers := map[*ssa.Function]bool{}
+			for _, f := range c.Funcs {
+				instrs(f, func(_ *ssa.BasicBlock, _ int, in ssa.Instruction) {
+					if cc := callCommon(in); cc != nil {
+						if cal := staticCallee(cc); cal != nil && origin(cal) == origin(fn) {
+							callers[rootFn(f)] = true
+						}
+					}
+				})
+			}
+			for cf := range callers {
+				isMeth := false
+				for _, m := range meths {
+					if origin(m) == origin(cf) {
+						isMeth = true
+					}
+				}
+				if !isMeth {
+					viaCallers = false
+				}
+			}
+			if viaCallers {
+				r.discharged(key, fn.Pos(), "helper that moves size; counted on the paths of the List methods that call it")
+				continue
+			}
+		}
 		r.ok(good, key, fn.Pos(), "size must change by exactly "+itoa(delta)+" on every path of "+n+" (Len counts the nodes)")
 	}
 }
@@ -165,7 +196,7 @@ func ruleListRemove(c *Ctx, r *R) {
 	pf.Instr = func(f *ssa.Function, in ssa.Instruction, q int) (StateSet, bool) {
 		switch x := in.(type) {
 		case *ssa.Call:
-			if cal := staticCallee(&x.Call); cal != nil && fname(cal) == "remove" && len(x.Call.Args) == 2 && x.Call.Args[1] == ssa.Value(node) {
+			if cal := staticCallee(&x.Call); cal != nil && fname(cal) == "remove" && len(x.Call.Args) == 2 && (x.Call.Args[1] == ssa.Value(node) || x.Call.Args[0] == ssa.Value(node)) {
 				return ss(q | 1), true
 			}
 			// a helper that clears the links of the node it is handed (node.detach()): stores of nil, in its entry block, to
@@ -218,7 +249,8 @@ func ruleListRemove(c *Ctx, r *R) {
 		touches := false
 		instrs(rm, func(b *ssa.BasicBlock, i int, in ssa.Instruction) {
 			if st, ok := in.(*ssa.Store); ok {
-				if fa, ok := st.Addr.(*ssa.FieldAddr); ok && fa.X == ssa.Value(rm.Params[1]) {
+				_, rmNode := listAndNode(rm)
+				if fa, ok := st.Addr.(*ssa.FieldAddr); ok && rmNode != nil && fa.X == ssa.Value(rmNode) {
 					touches = true
 				}
 			}
@@ -477,14 +509,23 @@ func ruleListUnlinkBothSides(c *Ctx, r *R) {
 		sameT := func(a, b types.Type) bool {
 			return types.Identical(origType(derefType(a)), origType(derefType(b)))
 		}
-		return rootFn(origin(f)).Pkg == pkgL && f.Blocks != nil && origin(f) != fn && len(f.Params) == 2 && sameT(f.Params[0].Type(), fn.Params[0].Type()) && sameT(f.Params[1].Type(), fn.Params[1].Type())
+		if !(rootFn(origin(f)).Pkg == pkgL && f.Blocks != nil && origin(f) != fn && len(f.Params) == 2) {
+			return false
+		}
+		l0, n0 := listAndNode(fn)
+		l1, n1 := listAndNode(f)
+		return l0 != nil && n0 != nil && l1 != nil && n1 != nil && sameT(l0.Type(), l1.Type()) && sameT(n0.Type(), n1.Type())
 	}} // bit0 = predecessor side repaired, bit1 = successor side repaired
 	pf.Instr = func(f *ssa.Function, in ssa.Instruction, q int) (StateSet, bool) {
 		st, ok := in.(*ssa.Store)
 		if !ok {
 			return 0, false
 		}
-		l, node := "param:"+pname(f.Params[0]), "param:"+pname(f.Params[1])
+		lp, np := listAndNode(f)
+		if lp == nil || np == nil {
+			return 0, false
+		}
+		l, node := "param:"+pname(lp), "param:"+pname(np)
 		alts := alternatives(st.Addr)
 		vp := valueProv(st.Val, provEnv{}).String()
 		allIn := func(set ...string) bool {
@@ -569,4 +610,19 @@ func isZeroStruct(v ssa.Value) bool {
 		}
 	}
 	return true
+}
+
+
+// listAndNode: the list and the node a helper works on, by type (the unlink helper may be a method of either:
+// l.remove(node) / node.unlinkFrom(l)).
+func listAndNode(f *ssa.Function) (l, node *ssa.Parameter) {
+	for _, p := range f.Params {
+		if isNamedTypeDeep(p.Type(), "container/xlist", "List") && l == nil {
+			l = p
+		}
+		if isNamedTypeDeep(p.Type(), "container/xlist", "Node") && node == nil {
+			node = p
+		}
+	}
+	return
 }
